@@ -63,6 +63,8 @@ inductive Err where
   | recursion | coercion | value | index
   deriving Repr, DecidableEq, Inhabited
 
+deriving instance DecidableEq for Except
+
 def Err.toString : Err → String
   | .recursion => "recursion" | .coercion => "coercion" | .value => "value" | .index => "index"
 
